@@ -129,6 +129,7 @@ func MonitorC16(c *Case, obs []Obs) (fails []Failure, facts map[int]*entryFacts,
 					break
 				}
 			}
+			want = recording(want)
 			wantBlocked := blockBy != nil && !statPanic
 			f.Blocked = ob.Kind == "blocked"
 			// clause: order / first block / once-only, all visible in the call log
@@ -230,6 +231,18 @@ func MonitorC16(c *Case, obs []Obs) (fails []Failure, facts map[int]*entryFacts,
 		}
 	}
 	return
+}
+
+// recording drops the calls of slots that do not record (negative ids: the built-in slots of the
+// default chain).
+func recording(cs []Call) []Call {
+	var out []Call
+	for _, c := range cs {
+		if c.ID >= 0 {
+			out = append(out, c)
+		}
+	}
+	return out
 }
 
 func classifyLog(got, want []Call) string {
